@@ -102,12 +102,18 @@ def run_unit(spec):
             if req is not True:
                 ctx.assume(req)
             tail = ctx.bytes_const("tail")
-            res.replayer = rt_replayer(w, r, v, tail)
+            res.replayer = rt_replayer(w, r, v, tail, wc)
             sink = Sink(ctx)
             it = make_interp(ctx, OnlyAbstract(), inline=_inline)
             o1 = run_body(it, w, [sink, v])
             if o1.kind != "return":
-                return      # a contracted encode error: nothing to read back
+                # only the contracted encode errors (value outside the domain) may stop the round trip here
+                exp = wc.expect(ctx, v)
+                if exp[0] != "raise":
+                    path_obligation(res, ctx, f"{res.unit}/writer-accepts-domain-value", z3.BoolVal(False),
+                                    expected="encodes (the value is inside the writer's domain)", got=repr(o1))
+                    collect(res, ctx)
+                return
             src = Source(ctx, list(sink.out()) + [Raw(tail)])
             it2 = make_interp(ctx, OnlyAbstract(), inline=_inline)
             o2 = run_body(it2, r, [src])
@@ -131,7 +137,7 @@ def run_unit(spec):
     return out
 
 
-def rt_replayer(w, r, v, tail):
+def rt_replayer(w, r, v, tail, wc=None):
     def replay(ob):
         import io
         from checks.l1_serial import native_outcome, small_model
@@ -142,7 +148,10 @@ def rt_replayer(w, r, v, tail):
         buf = io.BytesIO()
         k, res = native_outcome(lambda: w(buf, val))
         if k == "raise":
-            return {"confirmed": False, "note": "writer raises on the concretised input"}
+            from kvc.core import Ctx
+            inside = wc is not None and wc.expect(Ctx(), val)[0] != "raise"
+            return {"confirmed": bool(inside), "input": repr(val)[:200] + (f" (len {len(val)})" if hasattr(val, "__len__") else ""),
+                    "expected": "encodes (value inside the writer's domain)", "observed": f"writer raised {res.__name__}"}
         data = buf.getvalue()
         rb = io.BytesIO(data + t)
         k, res = native_outcome(lambda: r(rb))
